@@ -63,6 +63,14 @@ func New(def *SchemaDefinition) (*Schema, error) {
 		return nil, fmt.Errorf("schemas must define the query operation")
 	}
 
+	for _, root := range []*ObjectType{def.Query, def.Mutation, def.Subscription} {
+		if root != nil && len(root.RequiredFeatures) > 0 {
+			// Root operation types are reachable by every request without any lookup that could
+			// take the request's features into account.
+			return nil, fmt.Errorf("%v is a root operation type and cannot require features", root.Name)
+		}
+	}
+
 	for name := range def.Directives {
 		if !isName(name) || strings.HasPrefix(name, "__") {
 			return nil, fmt.Errorf("illegal directive name: %v", name)
